@@ -14,6 +14,7 @@ import (
 	"bufio"
 	"bytes"
 	"encoding/json"
+	"errors"
 	"fmt"
 	"io"
 	"net/http"
@@ -84,7 +85,29 @@ type Case struct {
 	// Built: the response is not read off the wire but built by the proxy with
 	// proxyutil.NewResponse(code, body, req) (502, skipped round trip, ...).
 	Built bool `json:"built,omitempty"`
+	// FailBody: reading the request body fails after half of it (the client
+	// went away in the middle of an upload): with post-data logging on the
+	// request cannot be converted; the exchange then contributes no entry.
+	FailBody bool `json:"fail_body,omitempty"`
 }
+
+// failingBody yields data and then an error instead of io.EOF.
+type failingBody struct {
+	data []byte
+	off  int
+}
+
+func (b *failingBody) Read(p []byte) (int, error) {
+	if b.off >= len(b.data) {
+		return 0, errors.New("read tcp: connection reset by peer")
+	}
+	n := copy(p, b.data[b.off:])
+	b.off += n
+	return n, nil
+}
+func (b *failingBody) Close() error { return nil }
+
+func failBodyApplies(c Case, mq *msggen.Message) bool { return c.FailBody && len(mq.Entity) > 0 }
 
 const appended = "<!-- appended by a modifier -->"
 
@@ -300,6 +323,9 @@ func run(c Case) (v kit.Verdict) {
 		l.SetOption(c.Post.Option(true), c.Body.Option(false))
 	}
 	mq = staleRequest(c, mq, req)
+	if failBodyApplies(c, mq) {
+		req.Body = &failingBody{data: mq.Entity[:len(mq.Entity)/2]}
+	}
 	reqErr := l.ModifyRequest(req)
 
 	var res *http.Response
@@ -315,7 +341,9 @@ func run(c Case) (v kit.Verdict) {
 	resErr := l.ModifyResponse(res)
 
 	// the forwarded bodies are intact whatever was captured (shared with C15)
-	if got, err := io.ReadAll(req.Body); err != nil || !bytes.Equal(got, mq.Entity) {
+	if failBodyApplies(c, mq) {
+		// (the upload is broken by construction: nothing to forward)
+	} else if got, err := io.ReadAll(req.Body); err != nil || !bytes.Equal(got, mq.Entity) {
 		v.Addf("C16/forwarded/"+reqShape(mq)+"/request-body-changed", "after logging the request body reads %v, %s", err, kit.Diff(mq.Entity, got))
 	}
 	if got, err := io.ReadAll(res.Body); err != nil || !bytes.Equal(got, ms.Entity) {
@@ -323,7 +351,7 @@ func run(c Case) (v kit.Verdict) {
 	}
 
 	exported := l.Export()
-	if v2, handled := invalidEntries(mq, reqErr, exported.Log.Entries, 1); handled {
+	if v2, handled := invalidEntries(mq, reqErr, exported.Log.Entries, 1, failBodyApplies(c, mq)); handled {
 		return append(v, v2...)
 	}
 	if reqErr != nil || len(exported.Log.Entries) != 1 {
@@ -346,14 +374,16 @@ func run(c Case) (v kit.Verdict) {
 // particular not one without a request, to which the response of the exchange
 // would then be attached. handled = the request was such a request and failed
 // (nothing further can be compared for it).
-func invalidEntries(mq *msggen.Message, reqErr error, es []*har.Entry, exchanges int) (v kit.Verdict, handled bool) {
+func invalidEntries(mq *msggen.Message, reqErr error, es []*har.Entry, exchanges int, brokenUpload bool) (v kit.Verdict, handled bool) {
 	for i, e := range es {
 		if e.Request == nil {
 			v.Addf("C16/entry/request-conversion-failed/entry-without-request", "exported entry %d of %d has \"request\": null (response attached: %v); ModifyRequest had returned: %v", i, len(es), e.Response != nil, reqErr)
 		}
 	}
-	if mq.Spec.Body.Kind != "badform" || reqErr == nil {
-		return v, len(v) > 0
+	if (mq.Spec.Body.Kind != "badform" && !brokenUpload) || reqErr == nil {
+		// (a broken upload that was recorded - post-data logging off - has
+		// nothing further to compare either: its body never arrives)
+		return v, len(v) > 0 || brokenUpload
 	}
 	if len(v) == 0 && len(es) != exchanges-1 {
 		v.Addf("C16/entry/request-conversion-failed/entry-left-behind", "ModifyRequest failed (%v), yet the log holds %d entries where %d exchanges were recorded", reqErr, len(es), exchanges-1)
@@ -856,6 +886,9 @@ func gen(t *rapid.T) Case {
 		}
 	}
 	c.Built = rapid.IntRange(0, 5).Draw(t, "built") == 0
+	if c.Req.Body.Kind != "none" {
+		c.FailBody = rapid.IntRange(0, 9).Draw(t, "fail_body") == 0
+	}
 	return c
 }
 
@@ -978,6 +1011,9 @@ func classes(c Case) []string {
 	if c.Req.Body.Kind == "badform" && c.Post.Captures(c.Req.ContentType) {
 		cl = append(cl, "unparseable-form-captured")
 	}
+	if c.FailBody && c.Post.Captures(c.Req.ContentType) {
+		cl = append(cl, "request-body-read-fails-while-captured")
+	}
 	if c.Built {
 		cl = append(cl, "built-response")
 		if c.Req.Proto10 {
@@ -1012,7 +1048,7 @@ var propEntry = &kit.Prop[Case]{
 	Gates: map[string]float64{
 		"nontrivial": 0.6, "chunked-request": 0.1, "chunked-urlencoded": 0.01, "compressed-response": 0.15, "compressed-chunked-response": 0.03,
 		"non-utf8": 0.2, "non-utf8-param": 0.03, "req-body-multipart": 0.05, "req-body-form": 0.05, "post-optin": 0.08, "body-optout": 0.08,
-		"query": 0.3, "request-cookies": 0.15, "response-cookies": 0.15, "redirect": 0.08, "through-export-handler": 0.3, "option-history": 0.3, "option-overridden": 0.12, "stale-content-length": 0.02, "stale-host": 0.08, "stale-transfer-encoding": 0.02, "built-response": 0.08, "unparseable-form-captured": 0.02, "query-value-with-equals-sign": 0.05, "query-pair-rejected-by-net-url": 0.05, "built-response-http10": 0.004,
+		"query": 0.3, "request-cookies": 0.15, "response-cookies": 0.15, "redirect": 0.08, "through-export-handler": 0.3, "option-history": 0.3, "option-overridden": 0.12, "stale-content-length": 0.02, "stale-host": 0.08, "stale-transfer-encoding": 0.02, "built-response": 0.08, "unparseable-form-captured": 0.02, "request-body-read-fails-while-captured": 0.02, "query-value-with-equals-sign": 0.05, "query-pair-rejected-by-net-url": 0.05, "built-response-http10": 0.004,
 	},
 }
 
@@ -1172,6 +1208,14 @@ func matrix(yield func(Case) bool) {
 		for _, c := range cs {
 			c.Post, c.Body = allOpt, allOpt
 			if !yield(c) {
+				return
+			}
+		}
+	}
+	// the request body cannot be read to its end: no entry, never one without a request
+	for _, rq := range []msggen.Spec{jsn, chReq} {
+		for _, mode := range []string{"all", "none"} {
+			if !yield(Case{Req: rq, Res: txt, Post: msggen.HarOpt{Mode: mode}, Body: allOpt, FailBody: true}) {
 				return
 			}
 		}
